@@ -1,4 +1,4 @@
-//go:build verif
+//go:build verif && go1.18
 
 package fit
 
@@ -412,5 +412,54 @@ func H02b() {
 	vSameExcept(msg.Interface(), getMesgAllInvalid(gmn).Interface(), "C02.multi.absent-fields-invalid", except...)
 	vAssert(d.bytes.n == total, "C02.multi.consumed")
 	vReached("compared-multi")
+	vReached("end")
+}
+
+// H02d: an unknown message whose definition carries regular fields and a
+// developer field is skipped without disturbing the record that follows.
+// Unknown message number, field sizes (0..1 regular field of 1..3 bytes, one
+// developer field of 1..3 bytes) and the following record's heart rate are
+// arbitrary; through the real record loop, with and without the counting
+// options.
+func H02d() {
+	var d decoder
+	f, _ := NewFile(FileTypeActivity, NewHeader(V20, true))
+	d.file = f
+	if vBool() {
+		d.opts.unknownFields, d.opts.unknownMessages = true, true
+		vMakeMap(&d.unknownFields)
+		vMakeMap(&d.unknownMessages)
+	}
+	u := MesgNum(0xFF00 | uint16(vByte()&0x7F)) // numbers the profile does not know
+	nf := vConcretize(vInt(0, 1))
+	fsz := vConcretize(vInt(1, 3))
+	dsz := vConcretize(vInt(1, 3))
+	big := vBool()
+	s := []byte{0x62, 0, 0, byte(u), byte(u >> 8), byte(nf)}
+	if big {
+		s[2], s[3], s[4] = 1, byte(u>>8), byte(u)
+	}
+	for i := 0; i < nf; i++ {
+		s = append(s, byte(7+i), byte(fsz), 0x0D)
+	}
+	s = append(s, 1, 0, byte(dsz), 0)
+	s = append(s, 0x41, 0, 0, 20, 0, 1, 3, 1, 0x02) // local 1: record, heart_rate
+	s = append(s, 0x02)                             // the unknown message's record
+	for i := 0; i < nf*fsz; i++ {
+		s = append(s, vByte())
+	}
+	for i := 0; i < dsz; i++ {
+		s = append(s, 0xE0|byte(i)) // developer bytes: concrete, so that a mis-framed parse stays concrete
+	}
+	hr := vByte()
+	s = append(s, 0x01, hr)
+	var buf [64]byte
+	copy(buf[:], s)
+	vFeed(&d, buf[:])
+	d.bytes.limit = len(s)
+	err := d.decodeFileData()
+	vAssert(err == nil && d.bytes.n == len(s), "C02.skip.unknown-message-with-developer-field-is-skipped-exactly")
+	act, _ := f.Activity()
+	vAssert(len(act.Records) == 1 && act.Records[0].HeartRate == hr, "C02.skip.following-record-undisturbed")
 	vReached("end")
 }
